@@ -1,6 +1,7 @@
 package main
 
 import (
+	"go/token"
 	"fmt"
 	"go/types"
 	"strings"
@@ -73,6 +74,7 @@ type Frame struct {
 	cellsByA map[*ssa.Alloc]*Cell
 	isTop    bool
 	recvIface *Term
+	callPos token.Pos // inlined frames: where the call is
 }
 
 type LoopEntry struct {
@@ -179,7 +181,7 @@ func (st *State) Clone() *State {
 		n.owned[k] = &c
 	}
 	for _, f := range st.frames {
-		nf := &Frame{id: f.id, fn: f.fn, bind: f.bind, params: f.params, isTop: f.isTop, recvIface: f.recvIface,
+		nf := &Frame{id: f.id, fn: f.fn, bind: f.bind, params: f.params, isTop: f.isTop, recvIface: f.recvIface, callPos: f.callPos,
 			regs: make(map[ssa.Value]Val, len(f.regs)), active: make(map[*ssa.BasicBlock]*LoopEntry, len(f.active)),
 			cellsByA: make(map[*ssa.Alloc]*Cell, len(f.cellsByA))}
 		for k, v := range f.regs {
